@@ -9,6 +9,7 @@ CONSTANTS
   EngSensors <- SplitS
   Policy <- PolMixed
   NSteps = 3
+  SpanSteps = 3
   Dt = 3
   OutDt = 3
   Events <- Durations
